@@ -183,7 +183,7 @@ def neutral_one(src):
 
 
 def neutral(srcs):
-    srcs = [s.rstrip('/') for s in srcs if os.path.exists(os.path.join(s, 'patch.diff'))]
+    srcs = [os.path.abspath(s.rstrip('/')) for s in srcs if os.path.exists(os.path.join(s, 'patch.diff'))]
     with multiprocessing.Pool(12) as pool:
         out = pool.map(neutral_one, srcs)
     bad = 0
